@@ -207,7 +207,12 @@ impl LruPageCache {
         let mut page_buffer = vec![0u8; PAGE_SIZE];
         let bytes_read = match self.file_manager.read_page(file_id, page_id, &mut page_buffer) {
             Ok(bytes) => bytes,
-            Err(_) => {
+            Err(e) => {
+                // An id that was never handed out has no pages: caching an empty one for it
+                // would be served to the file that is given this id later
+                if file_id >= self.file_manager.next_file_id.load(std::sync::atomic::Ordering::Relaxed) {
+                    return Err(e);
+                }
                 // If file read fails (e.g., virtual file ID), return empty page
                 page_buffer.clear();
                 page_buffer.resize(PAGE_SIZE, 0);
